@@ -12,6 +12,9 @@ pub struct ExIoError(std::io::Error);
 #[verifier::external_body]
 pub struct ExParseIntError(std::num::ParseIntError);
 #[verifier::external_type_specification]
+#[verifier::external_body]
+pub struct ExFile(std::fs::File);
+#[verifier::external_type_specification]
 pub struct ExAssertKind(core::panicking::AssertKind);
 
 // assert_eq!/assert_ne!/assert! failing is a panic: reaching it is a proof obligation
